@@ -34,6 +34,7 @@ UNITS['queue'] = dict(
     env_calls={'getEvent': 'Pol_getEvent'},
     tuple_ctor=['ArgsTuple'],
     fn_tag_default='QueuedEvent',
+    atomic_field_hooks={'Q.queueNotifyCounter': 'NOTIFYCNT'},
     type_rules=[
       (r'^std::condition_variable$', 'condvar', 'CondVar'),
       (r'^std::(__cxx11::)?list<', 'list', 'WList'),
